@@ -200,6 +200,17 @@ def gen_meta(rng, tier):
         k = rng.randint(1, min(2, nd))
         axes = sorted(rng.sample(range(nd), k))
         cases.append({'kind': rng.choice(kinds), 'shape': shape, 'axes': axes, 'seed': rng.randrange(10 ** 6)})
+    # Rotation.mean over several batch dims: every order / sign of the dims, with and without keepdim
+    for _ in range(4 if tier == 'quick' else 60):
+        nd = rng.randint(2, 3)
+        shape = [rng.randint(2, 3) for _ in range(nd)]
+        axes = sorted(rng.sample(range(nd), 2))
+        cases.append({'kind': 'rotation_mean', 'shape': shape, 'axes': axes, 'seed': rng.randrange(10 ** 6)})
+    # SliceProjectionOp: a batch of slices (different profiles, shifts, rotations) equals the stack of the single-slice operators
+    for _ in range(3 if tier == 'quick' else 40):
+        cases.append({'kind': 'slice_batch', 'shape': [rng.randint(5, 8), rng.randint(5, 8), rng.randint(5, 8)], 'axes': [0],
+                      'widths': [rng.choice([1.0, 1.5, 2.0, 3.0, 4.0]) for _ in range(3)], 'shifts': [rng.randint(-4, 4) / 2 for _ in range(3)],
+                      'seed': rng.randrange(10 ** 6)})
     return cases
 
 
@@ -218,6 +229,10 @@ def impl_meta(c):
     x = torch.randint(-4, 5, c['shape'], generator=g).to(torch.float64)
     results, batch_ok = [], None
     kind = c['kind']
+    if kind == 'rotation_mean':
+        return _rotation_mean(c)
+    if kind == 'slice_batch':
+        return _slice_batch(c)
     for enc in _encodings(axes, nd):
         try:
             if kind == 'fft':
@@ -298,6 +313,54 @@ def impl_meta(c):
     return {'results': results, 'batch_ok': batch_ok}
 
 
+def _rotation_mean(c):
+    """Rotation.mean(dim=...) for every order and sign of the same set of dims, keepdim False / True: one result (as matrices)"""
+    from mrpro.data import Rotation
+    g = torch.Generator().manual_seed(c['seed'])
+    nd, axes = len(c['shape']), c['axes']
+    rv = torch.randint(-6, 7, (*c['shape'], 3), generator=g).to(torch.float64) / 8
+    r = Rotation.from_rotvec(rv)
+    w = torch.randint(1, 5, c['shape'], generator=g).to(torch.float64)
+    results = []
+    for keep in (False, True):
+        for enc in _encodings(axes, nd):
+            for perm in itertools.permutations(range(len(axes))):
+                d = tuple(enc[i] for i in perm)
+                try:
+                    m = r.mean(weights=w, dim=d, keepdim=keep)
+                    mat = m.as_matrix()
+                    results.append([[keep, list(d)], list(m.shape), mat.flatten().tolist()])
+                except Exception as e:  # noqa: BLE001
+                    results.append([[keep, list(d)], {'raises': vlib.exc_enum(e), 'msg': str(e)[:120]}])
+    return {'rotation_mean': results}
+
+
+def _slice_batch(c):
+    """a batch of three slices with different profiles / shifts / rotations vs three single-slice operators (forward and adjoint)"""
+    import mrpro.operators as ops
+    from mrpro.data import Rotation, SpatialDimension
+    from mrpro.utils.slice_profiles import SliceGaussian, SliceSmoothedRectangular
+    g = torch.Generator().manual_seed(c['seed'])
+    profs = [SliceGaussian(c['widths'][0]), SliceSmoothedRectangular(c['widths'][1], 0.5), SliceGaussian(c['widths'][2])]
+    rot = Rotation.from_rotvec(torch.randint(-4, 5, (3, 3), generator=g).to(torch.float64) / 8)
+    shift = torch.tensor(c['shifts'], dtype=torch.float64)
+    shape = SpatialDimension(*c['shape'])
+    x = torch.randint(-4, 5, c['shape'], generator=g).to(torch.float32)     # the projection matrices are float32
+    whole = ops.SliceProjectionOp(shape, slice_rotation=rot, slice_shift=shift, slice_profile=profs)
+    (yw,) = whole(x)
+    u = torch.randint(-4, 5, list(yw.shape), generator=g).to(torch.float32)
+    (zw,) = whole.adjoint(u)
+    dev_f = dev_a = 0.0
+    zsum = torch.zeros_like(zw)
+    for i in range(3):
+        single = ops.SliceProjectionOp(shape, slice_rotation=rot[i], slice_shift=float(shift[i]), slice_profile=profs[i])
+        (yi,) = single(x)
+        dev_f = max(dev_f, float((yw[i] - yi.reshape(yw[i].shape)).abs().max()))
+        zsum = zsum + single.adjoint(u[i].reshape(yi.shape))[0].reshape(zw.shape)
+    dev_a = float((zw - zsum).abs().max())
+    return {'slice_batch': [dev_f / float(max(1.0, yw.abs().max())), dev_a / float(max(1.0, zw.abs().max()))]}
+
+
 def _prewhiten_batching(c):
     """prewhitening a stack along `other` equals stacking the prewhitened elements (returns the deviation)"""
     from mrpro.algorithms.prewhiten_kspace import prewhiten_kspace
@@ -320,6 +383,27 @@ def oracle_meta(c, o):
         return None
     if isinstance(o, dict) and 'raises' in o:
         return f'crashed: {o}'
+    if 'rotation_mean' in o:
+        rs = o['rotation_mean']
+        for keep in (False, True):
+            grp = [r for r in rs if r[0][0] == keep]
+            if all(isinstance(r[1], dict) for r in grp) and len({r[1]['raises'] for r in grp}) == 1:
+                continue
+            ref = next(r for r in grp if not isinstance(r[1], dict))
+            for r in grp:
+                if isinstance(r[1], dict):
+                    return f'Rotation.mean(dim={tuple(r[0][1])}, keepdim={keep}) raised {r[1]} while dim={tuple(ref[0][1])} works (batch shape {c["shape"]})'
+                if r[1] != ref[1]:
+                    return f'Rotation.mean(dim={tuple(r[0][1])}, keepdim={keep}) has shape {r[1]} but dim={tuple(ref[0][1])} gives {ref[1]} (batch shape {c["shape"]})'
+                if any(abs(a - b) > 1e-9 for a, b in zip(r[2], ref[2])):
+                    return f'Rotation.mean(dim={tuple(r[0][1])}, keepdim={keep}) differs from dim={tuple(ref[0][1])} (batch shape {c["shape"]})'
+        return None
+    if 'slice_batch' in o:
+        df, da = o['slice_batch']
+        if df > 1e-5 or da > 1e-5:
+            return (f'SliceProjectionOp with a batch of slices (profile widths {c["widths"]}, shifts {c["shifts"]}) differs from the stacked single-slice '
+                    f'operators: forward {df:.3g}, adjoint {da:.3g} (relative)')
+        return None
     rs = o['results']
     if c['kind'] == 'prewhiten' and rs and not isinstance(rs[0], dict):
         return None if max(abs(v) for v in rs[0][1]) < 1e-5 else f'prewhiten_kspace of a stack along `other` differs from the stacked results by {max(abs(v) for v in rs[0][1]):.3g}'
